@@ -99,6 +99,9 @@ def execute(dev):
 
 
 def run(report, tier, only=None):
+    from vmc.oracles import selftest
+
+    selftest.run(report)
     k = int(only) if only and only.isdigit() else K[tier]
     devs, results = lattice.explore(report, DIMS, k, execute, relevant=scenes.relevant, timeout=300)
     ws = wo = 0.0
